@@ -508,7 +508,79 @@ def run_direct(ctx, case):
     ctx.sig(["direct", sorted(tags), int(math.log2(case["n"])) // 2, cap is None, factor, W, kinds, (warm > 0) + (warm >= case["n"])], nontrivial=case["n"] > 3)
 
 
+# ---------------------------------------------------------------------------------------------
+# the driver's periodic tick: the real DriverActor.receiveMsg_WakeupMessage on an instance of the real class (created without its
+# constructor) with a counting stand-in for the Driver: when is post_process_samples called, is the wake-up re-armed
+# ---------------------------------------------------------------------------------------------
+def gen_ticks(ctx):
+    rng = ctx.rng
+    for _ in range(ctx.budget):
+        n = rng.choice([1, 5, 29, 30, 31, 59, 60, 61, 95, 200]) if rng.random() < 0.7 else rng.randint(0, 400)
+        # the race finishes after `finish_at` wake-ups (None = never); a marker wake-up (reset of relative time) may be mixed in
+        yield {"n": n, "t": rng.choice([0, 0, 0, 7, 29]), "finish_at": rng.choice([None, None, rng.randint(0, max(1, n))]),
+               "markers": sorted(rng.sample(range(n), min(n, rng.choice([0, 0, 1, 3]))))}
+
+
+def run_ticks(ctx, case):
+    import logging
+    import types as _t
+
+    from esrally.driver import driver
+
+    DA = driver.DriverActor
+    w, p = DA.WAKEUP_INTERVAL_SECONDS, DA.POST_PROCESS_INTERVAL_SECONDS
+    if not (isinstance(w, int) and isinstance(p, int) and w > 0 and p > 0):
+        ctx.diff("the driver's wake-up and post-processing intervals", "positive integers", [w, p])
+        ctx.sig(["ticks", "constants"])
+        return
+    calls = {"pp": 0, "progress": 0, "reset": 0}
+    state = {"k": 0}
+    drv = object.__new__(driver.Driver)  # the real class; the four methods the tick uses are counted instead of executed
+    drv.__dict__.update(finished=lambda: case["finish_at"] is not None and state["k"] >= case["finish_at"],
+                        post_process_samples=lambda: calls.__setitem__("pp", calls["pp"] + 1),
+                        update_progress_message=lambda *a, **k: calls.__setitem__("progress", calls["progress"] + 1),
+                        reset_relative_time=lambda: calls.__setitem__("reset", calls["reset"] + 1),
+                        logger=logging.getLogger("esrally.driver.driver"), raw_samples=[], quiet=True, current_step=0, number_of_steps=1)
+    da = object.__new__(DA)
+    armed = []
+    da.__dict__.update(driver=drv, post_process_timer=case["t"], logger=logging.getLogger("esrally.driver.driver"),
+                       wakeupAfter=lambda d, payload=None: armed.append(d.total_seconds()), send=lambda *a, **k: None, status="benchmark_started")
+    handler = DA.receiveMsg_WakeupMessage
+    fired, rearmed = [], []
+    for k in range(case["n"]):
+        state["k"] = k
+        if k in case["markers"]:
+            before = dict(calls)
+            handler(da, _t.SimpleNamespace(payload=DA.RESET_RELATIVE_TIME_MARKER), "self")
+            if calls["pp"] != before["pp"] or calls["reset"] != before["reset"] + 1:
+                ctx.fail("ticks:marker-wakeup", "a reset-relative-time wake-up did something else than resetting the relative time", {"reset": 1, "pp": 0},
+                         {"reset": calls["reset"] - before["reset"], "pp": calls["pp"] - before["pp"]})
+        pp0, a0 = calls["pp"], len(armed)
+        handler(da, _t.SimpleNamespace(payload=None), "self")
+        fired.append(calls["pp"] > pp0)
+        rearmed.append(len(armed) > a0)
+    live = case["n"] if case["finish_at"] is None else min(case["n"], case["finish_at"])
+    m = ctx.model("samples", "ticks", {"w": w, "p": p, "n": live, "t": case["t"]})
+    want_fired = m["r"]["fired"] + [False] * (case["n"] - live)
+    if fired != want_fired:
+        k = next(i for i, (a, b) in enumerate(zip(fired, want_fired)) if a != b)
+        ctx.diff("wake-ups at which the driver post-processes", {"first-difference-at": k, "model": want_fired[k]}, {"impl": fired[k], "calls": calls["pp"]})
+    if rearmed != [True] * live + [False] * (case["n"] - live):
+        ctx.diff("wake-ups re-armed while the race is unfinished", live, sum(rearmed))
+    # direct oracle (the property): samples are post-processed periodically — never more than ceil(p / w) wake-ups of an unfinished race
+    # without a post-processing call
+    gap, worst = 0, 0
+    for f in fired[:live]:
+        gap = 0 if f else gap + 1
+        worst = max(worst, gap)
+    if worst >= -(-p // w):
+        ctx.fail("ticks:post-processing-starved", f"{worst} consecutive wake-ups of an unfinished race without post-processing (interval {p} s, wake-up every {w} s)",
+                 f"< {-(-p // w)}", worst)
+    ctx.sig(["ticks", m.get("tags"), case["finish_at"] is None, bool(case["markers"])], nontrivial=case["n"] > 1)
+
+
 STREAMS = [
     Stream("pipeline_on_simulated_races", gen, run, quick=320, thorough=100000, shards=16),
     Stream("pipeline_direct_sizes", gen_direct, run_direct, quick=160, thorough=12000, shards=16),
+    Stream("driver_periodic_tick", gen_ticks, run_ticks, quick=200, thorough=20000, shards=4),
 ]
